@@ -167,6 +167,15 @@ func genC12(r *Rand, tier string) []Case {
 			c.Key = "join-limit|" + fmt.Sprint(round)
 			out = append(out, c)
 		}
+		// a WITH clause in scope while the row is the query's own scope (FROM dual): star and plain columns only
+		{
+			cte := []CTE{{Name: "c", Q: &Stmt{From: &From{K: "table", Path: []string{"t"}}, Items: []Item{{E: Col("id")}}}}}
+			for i, items := range [][]Item{{{Star: true}}, {{Star: true}, {E: Num(1), Alias: "q"}}, {{E: Col("t"), Alias: "tt"}, {E: Num(1), Alias: "q"}}} {
+				c := mkCase(doc, &Stmt{From: &From{K: "dual"}, Items: items, With: cte}, []string{"form:cte-in-scope-dual-star", fmt.Sprintf("pos:%d", i)}, true)
+				c.Key = fmt.Sprintf("cte-dual|%d|%d", i, round)
+				out = append(out, c)
+			}
+		}
 		forms := c12Forms(r, t)
 		base := func() *Stmt { return &Stmt{From: &From{K: "table", Path: []string{"t"}}} }
 		add := func(q *Stmt, form, pos string, repeat int) {
